@@ -224,11 +224,34 @@ def isGen (bm : BuildM) : Bool := (bm.cmdline.getD []).take 4 == [103, 101, 110,
 /-- Is this a command that also rewrites one of its inputs (`rw ...`)? -/
 def isRw (bm : BuildM) : Bool := (bm.cmdline.getD []).take 3 == [114, 119, 32]
 
+/-- Is this a `split ...` command: its i-th output depends on its i-th dirtying input only, and an
+    output whose content would not change is left alone (modification time included) - the behaviour
+    of `cmake -E copy_if_different`, of generators that compare before writing, of `cp -p`. -/
+def isSplit (bm : BuildM) : Bool := (bm.cmdline.getD []).take 6 == [115, 112, 108, 105, 116, 32]
+
+/-- What a `split` command writes to its `i`-th output. -/
+def splitContent (e : Env) (bm : BuildM) (i : Nat) (out : Bytes) : Bytes :=
+  let readName (n : Bytes) : Bytes := match e.fs.get n with | some i => 1 :: i.content | none => [2]
+  let rel : List Nat := match bm.dirtying[i]? with | some f => [f] | none => bm.dirtying
+  let sep : Bytes := [0]
+  let part1 : Bytes := (bm.cmdline.getD []) ++ sep ++ out
+  let part2 : Bytes := rel.flatMap (fun f => (0 : UInt8) :: readName (fileName e.g f))
+  hex16 (fnv (part1 ++ part2))
+
+def runSplit (e : Env) (bm : BuildM) : Env :=
+  let clock := e.clock + 1
+  let fs := bm.outs.zipIdx.foldl (fun (fs : FsM) (oi : Nat × Nat) =>
+    let name := fileName e.g oi.1
+    let content := splitContent e bm oi.2 name
+    if (e.fs.get name).map (·.content) == some content then fs else fs.put name ⟨clock, content⟩) e.fs
+  { e with fs := fs, clock := clock }
+
 /-- Effects of a successful command on the tree (outputs get the next clock value). -/
 def runCommand (e : Env) (b : Nat) : Env :=
   match buildOf e.g b with
   | none => e
   | some bm =>
+    if isSplit bm then runSplit e bm else
     let clock := e.clock + 1
     let fs := bm.outs.foldl (fun (fs : FsM) o =>
       let name := fileName e.g o
